@@ -429,6 +429,42 @@ func c15verdict(c *mon.Ctx, handler, name string, want, got bool, guards string,
 	}
 }
 
+func c15joinerServer(userID string) string {
+	if i := strings.Index(userID, ":"); i >= 0 {
+		return userID[i+1:]
+	}
+	return userID
+}
+
+// c15RingKeyState is c14ring with another record for one server's key: "expired-before-event" (expired_ts before the
+// events' origin_server_ts: no signature made at that time is valid, in any room version) or "stale-before-event"
+// (valid_until_ts before it, nobody to ask for a newer one: not valid where the room version checks validity strictly).
+func c15RingKeyState(server, state string) *gmsl.KeyRing {
+	db := newMemKeyDB()
+	for _, s := range []string{"origin.example", "other.example", "third.example"} {
+		id := serverIdentity(s)
+		switch {
+		case s != server:
+			db.set(s, id.KeyID, id.Pub, farFuture, 0)
+		case state == "expired-before-event":
+			db.set(s, id.KeyID, id.Pub, 0, baseTime.UnixMilli()-1000)
+		default:
+			db.set(s, id.KeyID, id.Pub, baseTime.UnixMilli()-1000, 0)
+		}
+	}
+	return &gmsl.KeyRing{KeyDatabase: db}
+}
+
+// c15SignatureFault picks how the "validly signed by the requesting server" guard is made false: a key nobody
+// published, or the right key in a state in which it does not vouch for the event's timestamp.
+func c15SignatureFault(r *gen.Rand, t *ref.VersionTraits) string {
+	modes := []string{"unpublished-key", "unpublished-key", "expired-before-event"}
+	if t.StrictValidity {
+		modes = append(modes, "stale-before-event")
+	}
+	return gen.Pick(r, modes)
+}
+
 // withJunkSignature returns the event JSON with a made-up entry under the given server's name and key ID added to
 // its signatures: both are public, and signatures are not part of the event ID.
 func withJunkSignature(r *gen.Rand, evJSON []byte, id *gen.Identity) []byte {
@@ -477,8 +513,14 @@ func c15SendJoin(c *mon.Ctx, r *gen.Rand, sc *simScenario, b *simBranch) {
 			continue
 		}
 		signer := serverIdentity("other.example")
+		var ring gmsl.JSONVerifier = c14ring
+		sigFault := ""
 		if !vec[5] {
-			signer = gen.NewIdentity(r, "other.example", signer.KeyID) // an unpublished key
+			if sigFault = c15SignatureFault(r, s.t); sigFault == "unpublished-key" {
+				signer = gen.NewIdentity(r, "other.example", signer.KeyID)
+			} else {
+				ring = c15RingKeyState("other.example", sigFault)
+			}
 		}
 		ev, err := eb.Build(baseTime, "other.example", gmsl.KeyID(signer.KeyID), signer.Priv)
 		if err != nil {
@@ -507,10 +549,10 @@ func c15SendJoin(c *mon.Ctx, r *gen.Rand, sc *simScenario, b *simBranch) {
 			existing = "ban"
 		}
 		name := "send_join:" + vecName(names, vec)
-		c.Case(name, map[string]any{"version": s.ver, "guards": vecName(names, vec), "existing_membership": existing, "junk_entry_under_local_key": junk, "event": string(evJSON)}, func() {
+		c.Case(name, map[string]any{"version": s.ver, "guards": vecName(names, vec), "existing_membership": existing, "junk_entry_under_local_key": junk, "signature_fault": sigFault, "event": string(evJSON)}, func() {
 			q := &c15querier{membership: existing}
 			resp, err := gmsl.HandleSendJoin(gmsl.HandleSendJoinInput{Context: context.Background(), RoomID: roomID, EventID: eventID, JoinEvent: evJSON, RoomVersion: s.ver, RequestOrigin: origin,
-				LocalServerName: spec.ServerName(c15local), KeyID: gmsl.KeyID(local.KeyID), PrivateKey: local.Priv, Verifier: c14ring, MembershipQuerier: q, UserIDQuerier: userIDForSender,
+				LocalServerName: spec.ServerName(c15local), KeyID: gmsl.KeyID(local.KeyID), PrivateKey: local.Priv, Verifier: ring, MembershipQuerier: q, UserIDQuerier: userIDForSender,
 				StoreSenderIDFromPublicID: func(ctx context.Context, senderID spec.SenderID, userID string, id spec.RoomID) error { return nil }})
 			c15verdict(c, "send_join", name, allTrue(vec), err == nil, vecName(names, vec), s.ver)
 			if err != nil {
@@ -573,8 +615,14 @@ func c15Invite(c *mon.Ctx, r *gen.Rand, sc *simScenario, b *simBranch) {
 			continue
 		}
 		signer := serverIdentity(serverOf(inviter))
+		var ring gmsl.JSONVerifier = c14ring
+		sigFault := ""
 		if !vec[1] {
-			signer = gen.NewIdentity(r, signer.Server, signer.KeyID)
+			if sigFault = c15SignatureFault(r, s.t); sigFault == "unpublished-key" {
+				signer = gen.NewIdentity(r, signer.Server, signer.KeyID)
+			} else {
+				ring = c15RingKeyState(signer.Server, sigFault)
+			}
 		}
 		ev, err := eb.Build(baseTime, spec.ServerName(signer.Server), gmsl.KeyID(signer.KeyID), signer.Priv)
 		if err != nil {
@@ -603,14 +651,14 @@ func c15Invite(c *mon.Ctx, r *gen.Rand, sc *simScenario, b *simBranch) {
 		}
 		supplied := r.Chance(0.5)
 		name := "invite:" + vecName(names, vec)
-		c.Case(name, map[string]any{"version": s.ver, "guards": vecName(names, vec), "known_room": known, "current_membership": membership, "stripped_state_supplied": supplied, "junk_entry_under_local_key": junk}, func() {
+		c.Case(name, map[string]any{"version": s.ver, "guards": vecName(names, vec), "known_room": known, "current_membership": membership, "stripped_state_supplied": supplied, "junk_entry_under_local_key": junk, "signature_fault": sigFault}, func() {
 			q := &c15querier{state: b.state, membership: membership, known: known}
 			var stripped []gmsl.InviteStrippedState
 			if supplied {
 				stripped = []gmsl.InviteStrippedState{gmsl.NewInviteStrippedState(s.create)}
 			}
 			out, err := gmsl.HandleInvite(context.Background(), gmsl.HandleInviteInput{RoomID: roomID, RoomVersion: s.ver, InvitedUser: spec.NewUserIDOrPanic(invitee, true), InvitedSenderID: spec.SenderID(invitee),
-				InviteEvent: ev, StrippedState: stripped, KeyID: gmsl.KeyID(inviteeID.KeyID), PrivateKey: inviteeID.Priv, Verifier: c14ring, RoomQuerier: q, MembershipQuerier: q, StateQuerier: q, UserIDQuerier: userIDForSender})
+				InviteEvent: ev, StrippedState: stripped, KeyID: gmsl.KeyID(inviteeID.KeyID), PrivateKey: inviteeID.Priv, Verifier: ring, RoomQuerier: q, MembershipQuerier: q, StateQuerier: q, UserIDQuerier: userIDForSender})
 			c15verdict(c, "invite", name, allTrue(vec), err == nil, vecName(names, vec), s.ver)
 			if err != nil {
 				return
@@ -954,7 +1002,7 @@ func c15PerformJoinOn(c *mon.Ctx, r *gen.Rand, sc *simScenario, rb *simBranch, v
 		c.Case(name, map[string]any{"version": s.ver, "guards": vecName(names, vec)}, func() {
 			// what the resident server echoes as "event": nothing, our join with its own signature added, or something of
 			// its own making in the joiner's name that must not come back as the join
-			echo := r.Intn(5)
+			echo := r.Intn(7)
 			client := &scriptedJoinClient{
 				makeJoin: func() (gmsl.MakeJoinResponse, error) { return mjResp{proto: tmpl, ver: mjVer}, nil },
 				sendJoin: func(ev gmsl.PDU) (gmsl.SendJoinResponse, error) {
@@ -963,6 +1011,20 @@ func c15PerformJoinOn(c *mon.Ctx, r *gen.Rand, sc *simScenario, rb *simBranch, v
 					switch echo {
 					case 1:
 						rs.join = ev.Sign(res.Server, gmsl.KeyID(res.KeyID), res.Priv).JSON()
+					case 5, 6:
+						// the join under the ID it was sent with, but no longer vouched for by the joining server: its
+						// signature taken off (5), or - where the ID is a member of the event - another join given that ID (6)
+						jv := ref.MustParse(ev.JSON())
+						if sigs := jv.Get("signatures"); sigs != nil && sigs.K == ref.Obj {
+							sigs.Del(c15joinerServer(joiner))
+						}
+						if echo == 6 && jv.Get("event_id") != nil {
+							jv.Get("content").Set("displayname", ref.S("not what the joiner sent"))
+							jv.Del("hashes")
+						}
+						if f, err := s.impl.NewEventFromTrustedJSON(gen.Plain().Bytes(jv), false); err == nil {
+							rs.join = f.Sign(res.Server, gmsl.KeyID(res.KeyID), res.Priv).JSON()
+						}
 					case 2, 3, 4:
 						forged := gmsl.ProtoEvent{SenderID: joiner, RoomID: s.roomID, Type: "m.room.topic", StateKey: strp(joiner), PrevEvents: ev.PrevEventIDs(), AuthEvents: ev.AuthEventIDs(), Depth: ev.Depth(),
 							Content: []byte(`{"membership":"join","topic":"set by the resident server"}`)}
